@@ -85,6 +85,7 @@ def run(ctx):
 
     _block_refs(ctx)
     _mem2reg(ctx)
+    _fresh_insertions(ctx)
     # R5
     opt = ctx.fn("ppci/api.py", "optimize")
     cfg = CFG(opt)
@@ -253,3 +254,91 @@ def _self_is_not_ir(project, node):
         return False
     names = {b.name for b in project.mro(cls)}
     return not (names & {"Instruction", "Value"})
+
+
+# insertion sites that MOVE an instruction (it leaves its old block in the same function); reason per site
+MOVES = {
+    ("ppci/opt/clean.py", "CleanPass.glue_blocks"): "the instructions of block2 move to block1 and block2 is removed from the function afterwards",
+}
+PASS_MODULES = ("ppci/opt/cjmp.py", "ppci/opt/clean.py", "ppci/opt/constantfolding.py", "ppci/opt/mem2reg.py", "ppci/opt/tailcall.py", "ppci/opt/cse.py", "ppci/opt/transform.py", "ppci/opt/load_after_store.py")
+
+
+def _fresh_insertions(ctx):
+    """R8: Block.insert_instruction / add_instruction set instruction.block and put the object into the block's
+    list without looking whether it already sits in a block.  An object that is already placed would then be listed
+    twice (or listed in one block while claiming another): a value with two definitions.  So what a pass inserts
+    has to be an object it has just constructed."""
+    from .. import sym
+    ctx.rule("C03.R8", "what an optimisation pass inserts into a block is an instruction object it constructed itself (never one that already sits in a block), unless the site is a recorded move", floor=9)
+    project = ctx.project
+
+    def summary(rel, cls, meth, depth=0):
+        """for a helper method: list of (return node, kind) with kind 'fresh' | ('param', name, guard type) | 'other'"""
+        f = project.modules[rel].defs.get(cls + "." + meth)
+        if f is None or depth > 2:
+            return None
+        params = [a.arg for a in f.args.args]
+        out = []
+        for r in walk_no_nested(f):
+            if not isinstance(r, ast.Return) or r.value is None:
+                continue
+            k = fresh(rel, cls, f, r.value, r, depth + 1)
+            if k is not True and isinstance(r.value, ast.Name) and r.value.id in params:
+                conds = sym.conjuncts(r, f, {})
+                g = [norm(c.args[1]) for c, pol in conds if pol is True and isinstance(c, ast.Call) and norm(c.func) == "isinstance" and norm(c.args[0]) == r.value.id]
+                out.append((r, ("param", params.index(r.value.id) - 1, g[0] if g else None)))
+            else:
+                out.append((r, "fresh" if k is True else "other"))
+        return out
+
+    def fresh(rel, cls, fn, e, at, depth=0):
+        if isinstance(e, ast.Call) and isinstance(e.func, ast.Attribute) and isinstance(e.func.value, ast.Name) and e.func.value.id == "ir" and e.func.attr[:1].isupper():
+            return True
+        if isinstance(e, ast.Name):
+            v = sym.nearest_def(at, e.id)
+            if v is not None:
+                return fresh(rel, cls, fn, v, at, depth)
+            return False
+        if isinstance(e, ast.Call) and isinstance(e.func, ast.Attribute) and isinstance(e.func.value, ast.Name) and e.func.value.id == "self" and cls:
+            sm = summary(rel, cls, e.func.attr, depth)
+            if not sm:
+                return False
+            for r, kind in sm:
+                if kind == "fresh":
+                    continue
+                if isinstance(kind, tuple) and kind[2] and 0 <= kind[1] < len(e.args):
+                    # the helper hands its argument back when it is a <type>: the call site must have excluded that
+                    conds = sym.conjuncts(at, fn, {})
+                    arg = norm(e.args[kind[1]])
+                    if any(pol is False and isinstance(c, ast.Call) and norm(c.func) == "isinstance" and norm(c.args[0]) == arg and norm(c.args[1]) == kind[2] for c, pol in conds):
+                        continue
+                return False
+            return True
+        return False
+
+    n_sites = 0
+    for rel in PASS_MODULES:
+        mod = project.modules.get(rel)
+        if mod is None:
+            continue
+        for q, f in mod.defs.items():
+            if not isinstance(f, ast.FunctionDef) or "." not in q:
+                continue
+            cls = q.rsplit(".", 1)[0]
+            for c in walk_no_nested(f):
+                if not (isinstance(c, ast.Call) and last_name(c) in ("insert_instruction", "add_instruction") and c.args):
+                    continue
+                n_sites += 1
+                site = "%s:%s" % (rel, q)
+                if (rel, q) in MOVES:
+                    loop = [l for l in walk_no_nested(f) if isinstance(l, ast.For) and any(x is c for x in ast.walk(l))]
+                    src = norm(loop[0].iter) if loop else None
+                    rm = [x for x in calls_in(f, "remove_block") if src and norm(x.args[0]) == src and x.lineno > c.lineno]
+                    ctx.ob("C03.R8", site, "recorded move: the block the instructions come from is removed from the function afterwards (%s)" % MOVES[(rel, q)], bool(loop) and len(rm) == 1, construct="move:" + q, node=c)
+                    continue
+                st = c
+                while not isinstance(st, ast.stmt):
+                    st = st._parent
+                ok = fresh(rel, cls, f, c.args[0], st)
+                ctx.ob("C03.R8", site, "the inserted object `%s` is constructed by the pass (ir.<Class>(...) here, or in a helper whose every return is such a construction)" % norm(c.args[0]), ok is True, construct="fresh:%s:%s" % (q, norm(c.args[0])), node=c)
+    ctx.need(n_sites >= 9, "only %d insertion sites found in the optimisation passes" % n_sites)
